@@ -28,8 +28,11 @@ enum A1 {
     KeyEq,
     KeyNonEq,
     By,
+    /// `by = ..` AND `key = <non-Eq value>` in ONE attribute (the function for the comparison, the key for Hash): the
+    /// function decides `==`, so the field is exempt like any `by` field
+    ByKeyNonEq,
 }
-const A1S: [A1; 5] = [A1::None, A1::Ignore, A1::KeyEq, A1::KeyNonEq, A1::By];
+const A1S: [A1; 6] = [A1::None, A1::Ignore, A1::KeyEq, A1::KeyNonEq, A1::By, A1::ByKeyNonEq];
 
 /// (eq attribute, ord attribute) on one field
 #[derive(Clone, Copy, PartialEq, Eq, Debug)]
@@ -64,6 +67,8 @@ struct Case {
     with_partial_eq: bool,
     /// `Hash` is derived as well; every field then carries `#[hash(ignore)]` (which must not exempt it from the Eq check)
     with_hash: bool,
+    /// `#[derive_ex(Eq)] #[::derive_ex::derive_ex(PartialEq)]`: two lists, the second one written with the absolute path
+    split: bool,
     entry: Entry,
 }
 
@@ -81,6 +86,14 @@ fn attr_text(ft: FT, fa: FA) -> Option<String> {
             A1::KeyEq | A1::KeyNonEq if matches!(ft, FT::T | FT::WT) => return None, // no keys on a bare type parameter
             A1::KeyEq => format!("#[{name}(key = {eq_key})]"),
             A1::KeyNonEq => format!("#[{name}(key = {non_eq_key})]"),
+            A1::ByKeyNonEq if matches!(ft, FT::T | FT::WT) => return None,
+            A1::ByKeyNonEq => {
+                if name == "eq" || name == "partial_eq" {
+                    format!("#[{name}(by = |_, _| true, key = {non_eq_key})]")
+                } else {
+                    format!("#[ord(by = |_, _| ::core::cmp::Ordering::Equal, key = {non_eq_key})]")
+                }
+            }
             A1::By => {
                 if name == "eq" || name == "partial_eq" {
                     format!("#[{name}(by = |_, _| true)]")
@@ -105,7 +118,7 @@ fn field_rejects(ft: FT, fa: FA, gmode: GMode) -> bool {
     // precedence of the comparator `==` uses: partial_eq, eq, partial_ord, ord
     for a in [fa.peq, fa.eq, fa.pord, fa.ord] {
         match a {
-            A1::By | A1::KeyEq => return false,
+            A1::By | A1::ByKeyNonEq | A1::KeyEq => return false,
             A1::KeyNonEq => return true,
             _ => {}
         }
@@ -125,7 +138,7 @@ fn gen(ch: &mut Ch, thorough: bool) -> Option<Case> {
     for _ in 0..n {
         let ft = *ch.of(&[FT::U8, FT::F32, FT::T, FT::RefF32, FT::WT]);
         let mut fa = FA { eq: *ch.of(&A1S), ord: *ch.of(&A1S), peq: A1::None, pord: A1::None };
-        let custom = |a: A1| matches!(a, A1::KeyEq | A1::KeyNonEq | A1::By);
+        let custom = |a: A1| matches!(a, A1::KeyEq | A1::KeyNonEq | A1::By | A1::ByKeyNonEq);
         let _ = custom;
         if !matches!(ft, FT::T | FT::WT) && fa.eq != A1::Ignore && fa.ord != A1::Ignore {
             fa.peq = *ch.of(&[A1::None, A1::KeyEq, A1::KeyNonEq, A1::By]);
@@ -205,7 +218,11 @@ fn gen(ch: &mut Ch, thorough: bool) -> Option<Case> {
     if n == 3 && (container == 1 || with_partial_eq || entry == Entry::Derive) {
         return None;
     }
-    Some(Case { vector: ch.vector(), container, fields, gmode, with_partial_eq, with_hash, entry })
+    let split = ch.flag();
+    if split && !(with_partial_eq && !with_hash && !with_ord && entry == Entry::Attr && n == 1) {
+        return None;
+    }
+    Some(Case { vector: ch.vector(), container, fields, gmode, with_partial_eq, with_hash, split, entry })
 }
 
 fn program(c: &Case) -> (String, String) {
@@ -237,8 +254,10 @@ fn program(c: &Case) -> (String, String) {
         GMode::PartialEqOnly => "Eq(bound(T: ::core::cmp::PartialEq))".to_string(),
     };
     let with_ord = c.fields.iter().any(|f| f.1.pord != A1::None);
+    let eq_arg2 = eq_arg.clone();
     let list = if with_ord { format!("{eq_arg}, PartialEq, PartialOrd, Ord") } else if c.with_hash { format!("{eq_arg}, PartialEq, Hash") } else if c.with_partial_eq { format!("{eq_arg}, PartialEq") } else { eq_arg };
     let head = match c.entry {
+        Entry::Attr if c.split => format!("#[derive_ex({eq_arg2})]\n#[::derive_ex::derive_ex(PartialEq)]"),
         Entry::Attr => format!("#[derive_ex({list})]"),
         Entry::Derive => format!("#[derive(Ex)]\n#[derive_ex({list})]"),
     };
